@@ -8,3 +8,4 @@ echo "--- pinned tests:"; /venv/bin/python -m pytest -q -p no:cacheprovider --ti
 if [ -f "$D/demo.py" ]; then echo "--- demo (changed):"; (cd /tmp && timeout 300 /venv/bin/python "$D/demo.py" 2>&1 | tail -3; echo "demo exit=$?"); fi
 for id in "$@"; do echo "--- check $id:"; (cd /verif && timeout 2400 ./check $id 2>&1 | grep -E "VIOLATION|^C[0-9]+ |INFRA|TIMEOUT" | head -6); done
 git -C /repo checkout -- . ; git -C /repo status --short | head -3
+git -C /verif checkout -- evidence 2>/dev/null
